@@ -11,7 +11,7 @@ CHECKS = [
   "deeper trees are not enumerated; the unoptimised compile is the reference (differential oracle), so a defect shared by both pipelines is invisible here (C01 covers it)",
   "exhaustive bounded program enumeration with a differential oracle on the real compiler and VM", "§3 C02"),
  ("C20", "gosim", "exploration",
-  "all schedules with at most 2 (thorough 3-4) deviations from the default schedule of {fan-out, VM run loops, line feeder, reloader(s)} on the instrumented real Runtime/VM/Store: every line counted once by the shared counter, by exactly one program version, gauge writes in arrival order",
+  "all schedules with at most 2 (thorough 3-4) deviations from the default schedule of {fan-out, VM run loops, line feeder, reloader(s)} on the instrumented real Runtime/VM/Store, for 1 reload x 3 lines, 2 reloads x 3 lines and 1 reload x 1 line (<=3, thorough 5, deviations; thorough also 4 and 2 lines): every line counted once by the shared counter, by exactly one program version, gauge writes in arrival order",
   "scheduling points are the synchronisation operations (mutex, rwmutex, waitgroup, atomics, channel ops, go) of metrics, datum, runtime and vm; code between two points runs atomically; deviation bound, not full interleaving coverage; a shutdown hang when a reload lands after end of input is observed but outside this property's statement",
   "stateless model checking of the implementation under a controlled scheduler (iterative deviation bounding, DFS, replay-confirmed counterexamples)", "§3 C20"),
  ("C03", "seqx", "exploration",
